@@ -225,6 +225,31 @@ func drive(p *Property, tier string, seed int64, racebin string, verbose bool) i
 	pending.Wait()
 	close(queue)
 
+	if p.RaceSide != nil && racebin != "" && !p.Race {
+		// side monitor: a slice of the cases once more under the race detector (counters are not merged twice)
+		if f, t := p.RaceSide(tier); t > f {
+			side := &merged{counters: map[string]int64{}, distinct: map[string]struct{}{}}
+			var wg sync.WaitGroup
+			nside := 8
+			for k := 0; k < nside; k++ {
+				bf, bt := f+k*(t-f)/nside, f+(k+1)*(t-f)/nside
+				if bt <= bf {
+					continue
+				}
+				wg.Add(1)
+				go func(k, bf, bt int) {
+					defer wg.Done()
+					runBatchRace(p, tier, seed, racebin, tmp, 100000+k, batch{from: bf, to: bt, restarts: 1000}, timeout, side, verbose, true)
+				}(k, bf, bt)
+			}
+			wg.Wait()
+			m.counters["race_side_run_cases"] = int64(t - f)
+			m.counters["race_side_run_evaluations"] = side.evals
+			before := len(m.viols)
+			collectRaceReports(p, tier, seed, tmp, m)
+			m.counters["race_side_run_reports"] = int64(len(m.viols) - before)
+		}
+	}
 	if p.Race {
 		collectRaceReports(p, tier, seed, tmp, m)
 	}
@@ -234,6 +259,10 @@ func drive(p *Property, tier string, seed int64, racebin string, verbose bool) i
 // runBatch runs one worker over [b.from,b.to). If the worker dies, the death is
 // attributed to the journalled case and the rest of the batch is returned for re-queueing.
 func runBatch(p *Property, tier string, seed int64, bin, tmp string, id int, b batch, timeoutS int, m *merged, verbose bool) *batch {
+	return runBatchRace(p, tier, seed, bin, tmp, id, b, timeoutS, m, verbose, p.Race)
+}
+
+func runBatchRace(p *Property, tier string, seed int64, bin, tmp string, id int, b batch, timeoutS int, m *merged, verbose bool, race bool) *batch {
 	evf := filepath.Join(tmp, fmt.Sprintf("ev-%d.jsonl", id))
 	errf := filepath.Join(tmp, fmt.Sprintf("err-%d.txt", id))
 	ef, _ := os.Create(errf)
@@ -243,7 +272,7 @@ func runBatch(p *Property, tier string, seed int64, bin, tmp string, id int, b b
 	cmd.Stdout = ef
 	cmd.Stderr = ef
 	cmd.Env = append(os.Environ(), "GOTRACEBACK=all", "VCHECK_TMP="+tmp)
-	if p.Race {
+	if race {
 		cmd.Env = append(cmd.Env, "GORACE=halt_on_error=0 log_path="+filepath.Join(tmp, "race"))
 	}
 	cmd.SysProcAttr = &syscall.SysProcAttr{Setpgid: true}
